@@ -781,6 +781,12 @@ def stale_cache(level="1.5"):
         bad = []
         if tuple(var.shape) != new.shape or not np.array_equal(_bits(var.values), _bits(new)):
             bad.append(f"use_cache=False returned shape {tuple(var.shape)} for a replaced image of shape {new.shape} (stale index consulted?)")
+        # regenerate the index for the new delivery, then open by default (through the index): the new file's samples
+        ceos_alos2.open_alos2(root, backend_options={"use_cache": False, "create_cache": True, "records_per_chunk": 5})
+        tree = ceos_alos2.open_alos2(root)
+        var = tree[f"imagery/{pol}/data"]
+        if tuple(var.shape) != new.shape or not np.array_equal(_bits(var.values), _bits(new)):
+            bad.append(f"after regenerating the cache (use_cache=False, create_cache=True) a default open returned shape {tuple(var.shape)}, the file has {new.shape}")
         return {"reproduced": bool(bad), "detail": bad}
 
     return with_product(run, level=level, n=4, p=3, pols=("HH",))
